@@ -348,6 +348,9 @@ func (c *Config) exec(h []seqx.Op) seqx.Result {
 			c.crossCheck(impls[0], impls[1], r)
 		}
 	}
+	// Deduplication key = canonical reference-model state (omap.Canon explains why equal keys have equal
+	// futures for this observation set). Histories that reach a known state are still executed and fully
+	// observed on the real buffers; only their extensions are not explored again.
 	res.State = seqx.Digest(m.Canon())
 	res.Outcome = seqx.Digest(out.String())
 	res.NonTrivial = nonTrivial(m)
